@@ -53,9 +53,9 @@ Proof.
   intros H. inversion H. lia.
 Qed.
 
-(* The index space after recalculate_ids, in closed form: surviving original imports, then every import
-   added or converted later (deleted ones included: D06), then the live locals of the later region, then the
-   original imports that were converted to locals (deleted ones included: D26). *)
+(* The index space after recalculate_ids, in closed form: the live original imports, then the live imports
+   added or converted later, then the live locals of the later region, then the live locals among the original
+   imports (imports replaced by a local function).  No deleted item survives (since the repair of D06 / D26). *)
 Theorem index_space_closed_form (s : space) :
   s_recalc s = true -> (N.to_nat (s_num s - s_added s) <= length (s_items s))%nat ->
   forall l m, index_space s = Ok (l, m) ->
@@ -66,21 +66,25 @@ Proof.
   destruct (N.eqb _ _); inversion H; subst. split; reflexivity.
 Qed.
 
-(* which deleted items survive recalculate_ids: only imports of the later region (D06) and converted
-   original imports (D26); every other deleted item is gone from the index space *)
-Theorem spec_deleted_survivors (orig : nat) (l : list item) (i : item) :
-  In i (spec orig l) -> it_del i = true ->
-  (is_import i = true /\ In i (skipn orig l)) \/ (is_local i = true /\ In i (firstn orig l)).
+(* no deleted item survives recalculate_ids, whatever its kind and region *)
+Theorem spec_no_deleted (orig : nat) (l : list item) (i : item) :
+  In i (spec orig l) -> it_del i = false.
 Proof.
-  unfold spec. intros Hin Hd.
-  apply in_app_or in Hin as [H|H].
-  - apply filter_In in H as [_ H]. unfold keepA in H. rewrite Hd in H. rewrite andb_false_r in H. discriminate.
-  - apply in_app_or in H as [H|H].
-    + apply filter_In in H as [H1 H2]. left. split; assumption.
-    + apply in_app_or in H as [H|H].
-      * apply filter_In in H as [_ H]. unfold keepC in H. rewrite Hd in H. rewrite andb_false_r in H. discriminate.
-      * apply filter_In in H as [H1 H2]. right. split; assumption.
+  unfold spec. intros Hin.
+  assert (HA : forall xs, In i (filter keepA xs) -> it_del i = false).
+  { intros xs H. apply filter_In in H as [_ H]. unfold keepA in H. apply andb_prop in H as [_ H].
+    destruct (it_del i); [discriminate|reflexivity]. }
+  assert (HC : forall xs, In i (filter keepC xs) -> it_del i = false).
+  { intros xs H. apply filter_In in H as [_ H]. unfold keepC in H. apply andb_prop in H as [_ H].
+    destruct (it_del i); [discriminate|reflexivity]. }
+  apply in_app_or in Hin as [H|H]; [exact (HA _ H)|].
+  apply in_app_or in H as [H|H]; [exact (HA _ H)|].
+  apply in_app_or in H as [H|H]; [exact (HC _ H)|exact (HC _ H)].
 Qed.
+(* ... so "which deleted items survive" has the answer: none *)
+Theorem spec_deleted_survivors (orig : nat) (l : list item) (i : item) :
+  In i (spec orig l) -> it_del i = true -> False.
+Proof. intros Hin Hd. rewrite (spec_no_deleted orig l i Hin) in Hd. discriminate. Qed.
 
 (* every live item of the input is present in the index space (nothing else is dropped) *)
 Theorem spec_keeps_live (orig : nat) (l : list item) (i : item) :
@@ -89,10 +93,12 @@ Proof.
   intros Hin Hd. unfold spec. rewrite <- (firstn_skipn orig l) in Hin.
   apply in_app_or in Hin as [H|H].
   - destruct (is_local i) eqn:Hl.
-    + apply in_or_app. right. apply in_or_app. right. apply in_or_app. right. apply filter_In. split; assumption.
+    + apply in_or_app. right. apply in_or_app. right. apply in_or_app. right. apply filter_In. split; [exact H|].
+      unfold keepC. rewrite Hl, Hd. reflexivity.
     + apply in_or_app. left. apply filter_In. split; [exact H|]. unfold keepA, is_import. rewrite Hl, Hd. reflexivity.
   - destruct (is_local i) eqn:Hl.
     + apply in_or_app. right. apply in_or_app. right. apply in_or_app. left. apply filter_In. split; [exact H|].
       unfold keepC. rewrite Hl, Hd. reflexivity.
-    + apply in_or_app. right. apply in_or_app. left. apply filter_In. split; [exact H|]. unfold is_import. rewrite Hl. reflexivity.
+    + apply in_or_app. right. apply in_or_app. left. apply filter_In. split; [exact H|].
+      unfold keepA, is_import. rewrite Hl, Hd. reflexivity.
 Qed.
